@@ -2,7 +2,7 @@
 """Run the repository's own test suite (guard off unless --tags given) on a tree and compare
 with /root/.vp/BASELINE.json: prints the baseline tests that no longer pass. exit 0 iff none.
 usage: repo-suite.py [--repo DIR] [--tags TAGS] [--pkgs ./...]"""
-import argparse, json, os, subprocess, sys
+import argparse, json, os, shutil, subprocess, sys, tempfile
 ap = argparse.ArgumentParser()
 ap.add_argument("--repo", default="/repo")
 ap.add_argument("--tags", default="")
@@ -15,11 +15,15 @@ env.pop("GOFLAGS", None)  # the make-app tests run a nested go build that chokes
 env.pop("GOSUMDB", None)
 # never let the suite's make-app tests delete somebody's $TMPDIR/scratch
 # NOTE: the suite's make-app tests remove $TMPDIR/scratch; nothing of ours may live there
+# a TMPDIR of its own: the make-app tests build in $TMPDIR/scratch, which concurrent runs of the suite would share
+tmp = tempfile.mkdtemp(prefix="suite-tmp-", dir="/var/tmp")
+env["TMPDIR"] = tmp
 cmd = ["go", "test", "-mod=mod", "-json", "-vet=off", "-count=1", "-timeout", "25m"]
 if a.tags:
     cmd += ["-tags", a.tags]
 cmd.append(a.pkgs)
 p = subprocess.run(cmd, cwd=a.repo, env=env, capture_output=True, text=True)
+shutil.rmtree(tmp, ignore_errors=True)
 passed = set()
 failed = set()
 for line in p.stdout.splitlines():
